@@ -305,3 +305,172 @@ Proof.
   exact (conj (g_as_current_choice_of cf m s w) (conj (g_as_into_inner_of cf m s w)
         (conj (g_as_is_terminal_eq cf (as_of m s w)) (conj (g_as_lock_stdout_eq cf _) (g_as_lock_stderr_eq cf _))))).
 Qed.
+
+(* ==== LOCK (C19): the second translation `gl_*` =================================================
+   The same Rust methods over a raw stream that logs its lock events ([lraw]: the writer and the
+   positions, in the writer's call history, at which the lock was taken / given back).  Every one of
+   the five Write methods of StripStream and of AutoStream, in either arm:
+     - answers what the first translation answers (same result, same writer, same strip state), and
+     - extends the lock log by exactly ONE Acquire, at the length of the inner call history before
+       the call, and ONE Release, at its length after the call ([lock_once]): the lock is taken
+       once, before the first inner call, and given back after the last one.
+   (A panic inside the call is [None] in both translations; the unwinding that drops the guard is
+   not modelled.) *)
+
+Definition lss_locked (x : lsstream) (x1 : sstream) : lsstream :=
+  mkLSS (mkLR (ss_raw x1) (lock_once (lr_log (lss_raw x)) (lr_w (lss_raw x)) (ss_raw x1))) (ss_state x1).
+
+Definition lss_res {A} (x : lsstream) (r : option (sstream * A)) : option (lsstream * A) :=
+  match r with Some (x1, v) => Some (lss_locked x x1, v) | None => None end.
+
+Lemma lock_once_app log w w1 :
+  (log ++ [LAcq (length (w_calls w))]) ++ [LRel (length (w_calls w1))] = lock_once log w w1.
+Proof. unfold lock_once. rewrite <- app_assoc. reflexivity. Qed.
+
+Ltac lk_norm :=
+  unfold set_lss_raw, set_lss_state, set_lr_w, lr_acquire, lr_release, set_ss_raw, set_ss_state;
+  cbn [lss_raw lss_state lr_w lr_log ss_raw ss_state].
+
+Lemma gl_ss_write_eq x buf : gl_ss_write x buf = lss_res x (g_ss_write (lss_erase x) buf).
+Proof.
+  destruct x as [[w log] s]. unfold gl_ss_write, g_ss_write, lss_erase, lss_res, lss_locked.
+  lk_norm.
+  destruct (g_write w s buf) as [[[w1 s1] r]|]; [|reflexivity].
+  lk_norm. rewrite lock_once_app. reflexivity.
+Qed.
+
+Lemma gl_ss_write_all_eq x buf : gl_ss_write_all x buf = lss_res x (g_ss_write_all (lss_erase x) buf).
+Proof.
+  destruct x as [[w log] s]. unfold gl_ss_write_all, g_ss_write_all, lss_erase, lss_res, lss_locked.
+  lk_norm.
+  destruct (g_write_all w s buf) as [[[w1 s1] r]|]; [|reflexivity].
+  lk_norm. rewrite lock_once_app. reflexivity.
+Qed.
+
+Lemma gl_ss_write_fmt_eq x frags : gl_ss_write_fmt x frags = lss_res x (g_ss_write_fmt (lss_erase x) frags).
+Proof.
+  destruct x as [[w log] s]. unfold gl_ss_write_fmt, g_ss_write_fmt, lss_erase, lss_res, lss_locked.
+  lk_norm.
+  destruct (g_write_fmt w s frags) as [[[w1 s1] r]|]; [|reflexivity].
+  lk_norm. rewrite lock_once_app. reflexivity.
+Qed.
+
+Lemma gl_ss_flush_eq x : Some (gl_ss_flush x) = lss_res x (Some (g_ss_flush (lss_erase x))).
+Proof.
+  destruct x as [[w log] s]. unfold gl_ss_flush, g_ss_flush, lss_erase, lss_res, lss_locked, raw_flush, ss_raw_flush.
+  lk_norm.
+  rewrite lock_once_app. reflexivity.
+Qed.
+
+Lemma gl_ss_write_vectored_eq x bufs :
+  gl_ss_write_vectored x bufs = lss_res x (g_ss_write_vectored (lss_erase x) bufs).
+Proof. unfold gl_ss_write_vectored, g_ss_write_vectored. apply gl_ss_write_eq. Qed.
+
+(* AutoStream: [las_with log a] is the stream value [a] whose raw stream carries the log [log] *)
+Definition las_locked (log : list lmark) (a a1 : astream) : lastream :=
+  las_with (lock_once log (as_writer a) (as_writer a1)) a1.
+
+Definition las_res {A} (log : list lmark) (a : astream) (r : option (astream * A)) : option (lastream * A) :=
+  match r with Some (a1, v) => Some (las_locked log a a1, v) | None => None end.
+
+(* the Strip arm: rewrite with the lemma of the locked StripStream method, then one case analysis on the
+   call of the first translation *)
+Ltac lock_strip_arm L call :=
+  rewrite L; unfold lss_res, lss_erase, las_res, las_locked, las_with, lss_locked; cbn [lss_raw lss_state lr_w lr_log];
+  destruct call as [[[w1 s1] r]|]; reflexivity.
+
+Ltac lock_pass_arm :=
+  unfold lr_acquire, lr_release, set_lr_w, las_res, las_locked, las_with; cbn [lr_w lr_log as_inner as_writer];
+  match goal with |- context [let '(o, r) := ?c in _] => destruct c as [w1 r] end;
+  cbn [lr_w lr_log as_inner as_writer set_as_inner set_las_inner]; rewrite lock_once_app; reflexivity.
+
+Lemma gl_as_write_eq cf log a buf :
+  gl_as_write cf (las_with log a) buf = las_res log a (g_as_write cf a buf).
+Proof.
+  destruct a as [[w|[w s]]]; unfold gl_as_write, g_as_write, las_with; cbn [as_inner las_inner ss_raw ss_state].
+  - lock_pass_arm.
+  - lock_strip_arm gl_ss_write_eq (g_ss_write (mkSS w s) buf).
+Qed.
+
+Lemma gl_as_write_vectored_eq cf log a bufs :
+  gl_as_write_vectored cf (las_with log a) bufs = las_res log a (g_as_write_vectored cf a bufs).
+Proof.
+  destruct a as [[w|[w s]]]; unfold gl_as_write_vectored, g_as_write_vectored, las_with; cbn [as_inner las_inner ss_raw ss_state].
+  - lock_pass_arm.
+  - lock_strip_arm gl_ss_write_vectored_eq (g_ss_write_vectored (mkSS w s) bufs).
+Qed.
+
+Lemma gl_as_flush_eq cf log a :
+  gl_as_flush cf (las_with log a) = las_res log a (g_as_flush cf a).
+Proof.
+  destruct a as [[w|[w s]]]; unfold gl_as_flush, g_as_flush, las_with; cbn [as_inner las_inner ss_raw ss_state].
+  - lock_pass_arm.
+  - pose proof (gl_ss_flush_eq (mkLSS (mkLR w log) s)) as H. unfold lss_res, lss_erase in H. cbn [lss_raw lss_state lr_w] in H.
+    destruct (gl_ss_flush (mkLSS (mkLR w log) s)) as [x1 r], (g_ss_flush (mkSS w s)) as [[w1 s1] r'].
+    injection H as -> ->. reflexivity.
+Qed.
+
+Lemma gl_as_write_all_eq cf log a buf :
+  gl_as_write_all cf (las_with log a) buf = las_res log a (g_as_write_all cf a buf).
+Proof.
+  destruct a as [[w|[w s]]]; unfold gl_as_write_all, g_as_write_all, las_with; cbn [as_inner las_inner ss_raw ss_state].
+  - lock_pass_arm.
+  - lock_strip_arm gl_ss_write_all_eq (g_ss_write_all (mkSS w s) buf).
+Qed.
+
+Lemma gl_as_write_fmt_eq cf log a frags :
+  gl_as_write_fmt cf (las_with log a) frags = las_res log a (g_as_write_fmt cf a frags).
+Proof.
+  destruct a as [[w|[w s]]]; unfold gl_as_write_fmt, g_as_write_fmt, las_with; cbn [as_inner las_inner ss_raw ss_state].
+  - lock_pass_arm.
+  - lock_strip_arm gl_ss_write_fmt_eq (g_ss_write_fmt (mkSS w s) frags).
+Qed.
+
+(* one operation, with the results as [sres] *)
+Definition gl_as_op (cf : acfg) (a : lastream) (o : sop) : option (lastream * sres) :=
+  match o with
+  | OWrite buf => match gl_as_write cf a buf with Some (a1, x) => Some (a1, sres_of_n x) | None => None end
+  | OWriteAll buf => match gl_as_write_all cf a buf with Some (a1, x) => Some (a1, sres_of_unit x) | None => None end
+  | OWriteVectored bufs => match gl_as_write_vectored cf a bufs with Some (a1, x) => Some (a1, sres_of_n x) | None => None end
+  | OWriteFmt frags => match gl_as_write_fmt cf a frags with Some (a1, x) => Some (a1, sres_of_unit x) | None => None end
+  | OFlush => match gl_as_flush cf a with Some (a1, x) => Some (a1, sres_of_unit x) | None => None end
+  end.
+
+(* every Write method of the translated AutoStream, in either arm: same answer as without the log,
+   and the lock taken exactly once around all the inner calls of the operation *)
+Theorem translated_ops_lock_once : forall cf log a o,
+  gl_as_op cf (las_with log a) o = las_res log a (g_as_op cf a o).
+Proof.
+  intros cf log a o. destruct o as [buf|buf|bufs|frags|]; cbn [gl_as_op g_as_op].
+  - rewrite gl_as_write_eq. destruct (g_as_write cf a buf) as [[a1 x]|]; reflexivity.
+  - rewrite gl_as_write_all_eq. destruct (g_as_write_all cf a buf) as [[a1 x]|]; reflexivity.
+  - rewrite gl_as_write_vectored_eq. destruct (g_as_write_vectored cf a bufs) as [[a1 x]|]; reflexivity.
+  - rewrite gl_as_write_fmt_eq. destruct (g_as_write_fmt cf a frags) as [[a1 x]|]; reflexivity.
+  - rewrite gl_as_flush_eq. destruct (g_as_flush cf a) as [[a1 x]|]; reflexivity.
+Qed.
+
+(* read through the hand model of C08: the log after one operation on [as_of m s w] *)
+Theorem translated_ops_lock_once_model : forall cf log m s w o,
+  gl_as_op cf (las_with log (as_of m s w)) o =
+  match auto_op (ac_wv_all cf) m s w o with
+  | Some (s1, w1, r) => Some (las_with (lock_once log w w1) (as_of m s1 w1), r)
+  | None => None
+  end.
+Proof.
+  intros cf log m s w o. rewrite translated_ops_lock_once, g_as_op_eq.
+  destruct (auto_op (ac_wv_all cf) m s w o) as [[[s1 w1] r]|]; [|reflexivity].
+  cbn [as_res las_res]. unfold las_locked. destruct m; reflexivity.
+Qed.
+
+Theorem translated_strip_lock_once : forall x,
+  (forall buf, gl_ss_write x buf = lss_res x (g_ss_write (lss_erase x) buf)) /\
+  (forall buf, gl_ss_write_all x buf = lss_res x (g_ss_write_all (lss_erase x) buf)) /\
+  (forall frags, gl_ss_write_fmt x frags = lss_res x (g_ss_write_fmt (lss_erase x) frags)) /\
+  (forall bufs, gl_ss_write_vectored x bufs = lss_res x (g_ss_write_vectored (lss_erase x) bufs)) /\
+  gl_ss_flush x = (lss_locked x (fst (g_ss_flush (lss_erase x))), snd (g_ss_flush (lss_erase x))).
+Proof.
+  intros x.
+  refine (conj (gl_ss_write_eq x) (conj (gl_ss_write_all_eq x) (conj (gl_ss_write_fmt_eq x) (conj (gl_ss_write_vectored_eq x) _)))).
+  destruct x as [[w log] s]. unfold gl_ss_flush, g_ss_flush, lss_erase, lss_locked, raw_flush, ss_raw_flush.
+  lk_norm. cbn [fst snd ss_raw ss_state]. rewrite lock_once_app. reflexivity.
+Qed.
